@@ -326,7 +326,7 @@ FORBIDDEN_FOR_Z = ('sources', 'voltage', 'rhs', 'magnitude', 'phase', 'phase_d')
 
 def t_frame_z(eng):
     n = P + '/frame/'
-    cg = CallGraph(eng.repo)
+    cg = CallGraph(eng.repo, eng.fn_override)
     F = cg.closure(['Mininec.compute_impedance_matrix', 'Mininec.compute_impedance_matrix_loads'],
                    stop=())
     reads = cg.attr_reads(F)
